@@ -85,10 +85,12 @@ pub fn check_merge(sa: &Snapshot, sb: &Snapshot, sr: &Snapshot) -> Vec<MV> {
     let mut out = Vec::new();
     let named_ns = [Ns::Obj, Ns::Tab, Ns::Typedef, Ns::CompuMethod, Ns::Unit, Ns::RecordLayout, Ns::Frame, Ns::Transformer, Ns::MemSeg, Ns::Group, Ns::Function];
     // (c) names unique within each namespace
+    let mut dup_names: BTreeSet<(Ns, String)> = BTreeSet::new();
     for ns in named_ns {
         let mut seen = BTreeSet::new();
         for e in sr.elems.iter().filter(|e| e.ns == Some(ns)) {
             if !seen.insert(e.name.clone()) {
+                dup_names.insert((ns, e.name.clone()));
                 out.push(MV { category: "conservation", oracle: "duplicate-name", detail: format!("{ns:?}"), what: format!("name {} occurs twice in namespace {ns:?} of the result", e.name) });
             }
         }
@@ -146,6 +148,13 @@ pub fn check_merge(sa: &Snapshot, sb: &Snapshot, sr: &Snapshot) -> Vec<MV> {
     // (b) every named element of B is represented
     for e in sb.elems.iter().filter(|e| e.ns.is_some() && e.ns != Some(Ns::UserRights)) {
         let ns = e.ns.unwrap();
+        // a reference whose target name occurs twice in the result designates whichever element comes first
+        for ed in &e.edges {
+            let tn = map(ed.ns, &ed.target);
+            if dup_names.contains(&(ed.ns, tn.clone())) {
+                out.push(MV { category: "reference", oracle: "reference-to-duplicated-name", detail: ed.site.clone(), what: format!("{} {} of B refers to {tn} at {}, and the result holds two elements of that name in namespace {:?}", e.kind, e.name, ed.site, ed.ns) });
+            }
+        }
         let target_name = map(ns, &e.name);
         let renamed = target_name != e.name;
         let in_a = sa.get(ns, &e.name);
